@@ -137,6 +137,23 @@ func checkC18(c *C18Case, st *VStats) *VFailure {
 				return vfail("ConnlistFromResourceInfos returns different connections than ConnlistFromDirPath\n--- dir path\n%s\n--- resource infos\n%s", r.Rel(), ri.Rel())
 			}
 		}
+		if c.Fail {
+			// with stop-on-error: a caller that scans the directory the ordinary way (as `eval` and the repository's
+			// tests do) and gets no scanner error hands the analyzer everything the directory holds - same result
+			ri := RunList(dir, ListOpts{Exposure: c.Exposure, Focus: c.Focus, ViaInfos: true, StopOnError: true, ScanAll: true})
+			if ri.Panic != nil {
+				return &VFailure{Msg: fmt.Sprintf("ConnlistFromResourceInfos (stop on error) panicked: %v", ri.Panic), Sig: "panic"}
+			}
+			if len(ri.ScanErrs) == 0 {
+				st.Class("stop-on-error: directory vs resource-info entry point on a scanner-clean input")
+				if (ri.Err != nil) != (r.Err != nil) {
+					return vfail("stop-on-error: ConnlistFromResourceInfos on the scanned infos returns err=%v where ConnlistFromDirPath returns err=%v", ri.Err, r.Err)
+				}
+				if r.Err == nil && ri.Rel() != r.Rel() {
+					return vfail("stop-on-error: ConnlistFromResourceInfos returns different connections than ConnlistFromDirPath on an input the scanner reads without error\n--- dir path\n%s\n--- resource infos\n%s", r.Rel(), ri.Rel())
+				}
+			}
+		}
 	} else {
 		dirB := c.B.WriteDir()
 		defer os.RemoveAll(dirB)
